@@ -1282,7 +1282,7 @@ func genPom(r *rand.Rand) pomCase {
 	for p := 0; p < nprof; p++ {
 		o := fmt.Sprintf("profile@p%d", p+1)
 		avail := append(append([]string{}, mainProps...), profProps[o]...)
-		if r.Intn(5) == 0 { // a property that only ANOTHER profile defines
+		if r.Intn(2) == 0 { // a property that only ANOTHER profile defines
 			for q := 0; q < nprof; q++ {
 				if q != p {
 					avail = append(avail, profProps[fmt.Sprintf("profile@p%d", q+1)]...)
